@@ -177,3 +177,90 @@ def replay_connect_one(m):
                                  else "tables as specified")
     finally:
         world.loop.close()
+
+
+def bounded_entity_models(tier, seed):
+    """Bounded stand-in for ModelMock.create / _make_entities (C11: connect() validates an attribute against the model OF
+    THE ENTITY): a real in-process simulator with two models whose create() returns entities with children of the other
+    model, to nesting depth 2; every entity must carry the model description of its own type, and connect() must
+    accept / reject attribute pairs accordingly."""
+    import itertools
+    import sys
+    import types
+    import warnings
+    import mosaik
+    import mosaik_api_v3
+    from mosaik.exceptions import ScenarioError
+    warnings.simplefilter("ignore")
+    try:
+        from loguru import logger
+        logger.remove()
+    except Exception:  # noqa: BLE001
+        pass
+    meta = {"api_version": "3.0", "type": "time-based", "models": {
+        "P": {"public": True, "params": [], "attrs": ["p_out", "p_in"]},
+        "Q": {"public": True, "params": [], "attrs": ["q_out", "q_in"]}}}
+    failures, cases = [], 0
+    shapes = [("P", []), ("P", [("Q", [])]), ("Q", [("P", []), ("Q", [])]), ("P", [("Q", [("P", [])])])]
+
+    def mk(shape, prefix="e"):
+        typ, kids = shape
+        d = {"eid": prefix, "type": typ}
+        if kids:
+            d["children"] = [mk(k, f"{prefix}_{i}") for i, k in enumerate(kids)]
+        return d
+
+    for shape in shapes:
+        class Sim(mosaik_api_v3.Simulator):
+            def __init__(self):
+                super().__init__(meta)
+
+            def init(self, sid, time_resolution=1.0, **kw):
+                return self.meta
+
+            def create(self, num, model, shape=shape, **kw):
+                if model != shape[0]:
+                    return [{"eid": f"o{i}", "type": model} for i in range(num)]
+                return [mk(shape, f"e{i}") for i in range(num)]
+
+            def step(self, time, inputs, max_advance):
+                return time + 1
+
+            def get_data(self, outputs):
+                return {}
+        mod = types.ModuleType("_c11_sims")
+        mod.Sim = Sim
+        sys.modules["_c11_sims"] = mod
+        w = mosaik.World({"S": {"python": "_c11_sims:Sim"}}, skip_greetings=True)
+        try:
+            fa, fb = w.start("S"), w.start("S")
+            top = getattr(fa, shape[0])()
+            other = fb.Q() if shape[0] == "P" else fb.P()
+            dest_in = "q_in" if shape[0] == "P" else "p_in"
+
+            def walk(ent, sh):
+                yield ent, sh[0]
+                for c, k in zip(ent.children or [], sh[1]):
+                    yield from walk(c, k)
+            for ent, typ in walk(top, shape):
+                cases += 1
+                if ent.model_mock is not getattr(fa, typ) or ent.type != typ:
+                    failures.append({"desc": f"entity {ent.full_id} of type {typ} (created inside {shape}) carries the model description of "
+                                             f"{ent.model_mock.name!r}", "case": {"shape": str(shape), "eid": ent.eid}})
+                    continue
+                out_ok, out_bad = ("p_out", "q_out") if typ == "P" else ("q_out", "p_out")
+                for attr, must_accept in ((out_ok, True), (out_bad, False)):
+                    cases += 1
+                    try:
+                        w.connect(ent, other, (attr, dest_in))
+                        accepted = True
+                    except ScenarioError:
+                        accepted = False
+                    if accepted != must_accept:
+                        failures.append({"desc": f"connect({ent.full_id} [{typ}], ..., ({attr!r}, {dest_in!r})) was "
+                                                 f"{'accepted' if accepted else 'rejected'}; {attr!r} is {'an' if must_accept else 'not an'} "
+                                                 f"output of model {typ}", "case": {"shape": str(shape), "eid": ent.eid, "attr": attr}})
+        finally:
+            w.shutdown()
+    return {"bound": f"{len(shapes)} entity trees (two models, children of the other model, nesting depth <= 2), every entity x (own output, "
+                     "other model's output) connected to a plain entity", "cases": cases, "failures": failures[:5]}
